@@ -175,7 +175,8 @@ func c03Programs() []string {
 		"Patient.birthDate.value", "Patient.meta.tag.code", "Bundle.entry.resource", "Bundle.entry.resource.name.given", "Observation.value", "Observation.value.value", "Observation.effective", "Observation.issued",
 		"Observation.component.value", "Questionnaire.item.item.linkId",
 		// collections passed in, with spare capacity, through every subsetting / filtering / set function
-		"%c.where(true)", "%c.where($this is Integer)", "%c.select($this)", "%c.select(%d)", "%c.select(%d.take(1))", "Patient.name.select(%c)", "Patient.name.select(%c.take(1))", "Patient.name.select(%c.skip(1))",
+		"%c.where(true)", "%c.where($this is Integer)", "%c.where($this is String)", "%c.where($this is HumanName)", "%c.where($this.toString() != '3')", "%c.where($this is Integer).count() + %c.count()",
+		"%c.exists($this is String)", "%c.exists($this is HumanName)", "%c.all($this is Integer)", "%c.where($this is String).where(true)", "%c.tail().where($this is HumanName)", "%c.select($this)", "%c.select(%d)", "%c.select(%d.take(1))", "Patient.name.select(%c)", "Patient.name.select(%c.take(1))", "Patient.name.select(%c.skip(1))",
 		"Patient.name.select(%c.tail())", "Patient.name.select(%e)", "%c.take(1)", "%c.take(2)", "%c.skip(1)", "%c.tail()", "%c.first()", "%c.last()", "%c[0]", "%c.distinct()", "%c.isDistinct()", "%c.exclude(%d)",
 		"%c.intersect(%d)", "%d.exclude(%c)", "%c.exists()", "%c.all($this.exists())", "%c.empty()", "%c = %d", "%c != %c", "%c.take(1) & 'x'", "%e.take(1)", "%e.where(true)", "%e.select(1)", "%e.exclude(%c)",
 		"iif(true, %c, %d)", "iif(false, %c, %d)", "%c.where(false).select(%d)", "Patient.name.where(use = 'official').select(given).take(1)", "Patient.name.given.tail().tail()", "Patient.name.given.skip(1).take(1)",
